@@ -1654,7 +1654,7 @@ def same_value(a, b, rep):
     float64 arrays to the classes), tolerated here and reported as the number `float32_constructor_arithmetic_max_rel_dev`"""
     if rep != 'float32' or a[0] != 'ok' or b[0] != 'ok':
         return same_result(a, b)
-    return close(a[1], b[1], 2e-5)
+    return close(a[1], b[1], 2e-4)
 
 
 def alias_stream(ctx, cat):
@@ -1739,7 +1739,7 @@ def alias_stream(ctx, cat):
                     if not same_result(a0, a1):
                         fail(ctx, 'C07:%s:aliases-caller-arrays:%s' % (cls, rep),
                              '%s%r changed from %s to %s after the caller overwrote its (%s) arrays in place' % (cls, tuple(args), a0, a1, rep), dd)
-                    if kind == 'knot' and a0[0] == 'ok' and not close(a0[1], expected_at(shape, wt, info['idx'], wl), 2e-5 if rep == 'float32' else 1e-9):
+                    if kind == 'knot' and a0[0] == 'ok' and not close(a0[1], expected_at(shape, wt, info['idx'], wl), 2e-4 if rep == 'float32' else 1e-9):
                         fail(ctx, 'C07:%s:grid-point-value' % cls, '%s (%s arrays) at grid point %r returned %r, stored value after conversion is %r' % (
                             cls, rep, args, a0[1], expected_at(shape, wt, info['idx'], wl)), dd)
     return n
